@@ -549,14 +549,14 @@ class Coverage:
                 )
 
 
-def run_batch(sim: Sim, seeds: list[int], cfg: dict, cov: Coverage, threads=24, deadline=None, stop_on_violation=True, on_run=None):
+def run_batch(sim: Sim, seeds: list[int], cfg: dict, cov: Coverage, threads=24, deadline=None, stop_on_violation=True, on_run=None, stop_if=None, classify=None):
     """returns (violating run dicts, harness error strings)"""
     bad = []
     herrs = []
     stop = threading.Event()
 
     def one(seed):
-        if stop.is_set() or (deadline and time.monotonic() > deadline):
+        if stop.is_set() or (deadline and time.monotonic() > deadline) or (stop_if is not None and stop_if()):
             return None
         try:
             r = sim.run_seed(seed, cfg)
@@ -566,6 +566,9 @@ def run_batch(sim: Sim, seeds: list[int], cfg: dict, cov: Coverage, threads=24, 
         if on_run is not None:
             on_run(r)
         if r["viols"]:
+            if classify is not None:
+                with cov.lock:
+                    classify(r)
             if stop_on_violation:
                 stop.set()
             return ("viol", r)
